@@ -90,6 +90,8 @@ func readFileLines(filename string, startLine, endLine int) (string, error) {
 	defer f.Close()
 
 	scanner := bufio.NewScanner(f)
+	// The default limit of 64 KiB per line is too small for minified sources.
+	scanner.Buffer(make([]byte, 0, 64*1024), 1<<30)
 	lines := ""
 	i := 0
 	for scanner.Scan() {
